@@ -242,6 +242,13 @@ FAMILY = {
         "thorough": dict(Deposits="{0}", QosSet="{1}", Caps="{3}", Timeouts="{1, 2}", Freqs="{0, 3}", Totals="{1, 2, 3}",
                          Dts="{1}", Thresholds="{1, 2}", Kinds='{"valid", "bad", "none"}', MaxHeight=8, MaxCtx=1, MaxBatch=4),
     },
+    "params": {
+        "module": "MC_params", "extra": "  ParamAlts <- C_ParamAlts\n",
+        "quick": dict(Deposits="{0}", QosSet="{1}", Caps="{3}", Timeouts="{2, 3}", Freqs="{0}", Totals="{2}",
+                      Dts="{1}", Thresholds="{1}", Kinds='{"valid", "bad"}', MaxHeight=5, MaxCtx=1, MaxBatch=2),
+        "thorough": dict(Deposits="{0}", QosSet="{1}", Caps="{3}", Timeouts="{2, 3}", Freqs="{0, 3}", Totals="{2, 3}",
+                         Dts="{1}", Thresholds="{1}", Kinds='{"valid", "bad"}', MaxHeight=7, MaxCtx=1, MaxBatch=3),
+    },
     "money": {
         "module": "MC_money",
         "quick": dict(Deposits="{0}", QosSet="{1}", Caps="{1, 3}", Timeouts="{1}", Freqs="{0}", Totals="{2}",
@@ -252,10 +259,10 @@ FAMILY = {
 }
 
 PROP_FAMILIES = {
-    "C01": ["money"], "C02": ["money", "lifecycle"], "C03": ["binding", "money"], "C04": ["money", "lifecycle"],
-    "C05": ["binding", "lifecycle"], "C06": ["money"], "C07": ["money"], "C08": ["lifecycle"],
-    "C09": ["lifecycle"], "C10": ["lifecycle"], "C11": ["lifecycle"], "C12": ["lifecycle"],
-    "C13": ["money"], "C14": ["binding", "money"], "C15": ["binding"], "C16": ["lifecycle"],
+    "C01": ["money"], "C02": ["money", "lifecycle", "params"], "C03": ["binding", "money"], "C04": ["money", "lifecycle", "params"],
+    "C05": ["binding", "lifecycle"], "C06": ["money"], "C07": ["money"], "C08": ["lifecycle", "params"],
+    "C09": ["lifecycle"], "C10": ["lifecycle", "params"], "C11": ["lifecycle", "params"], "C12": ["lifecycle"],
+    "C13": ["money"], "C14": ["binding", "money", "params"], "C15": ["binding"], "C16": ["lifecycle", "params"],
     "C19": ["money"],
 }
 
